@@ -47,7 +47,8 @@ def rdflib_truth(truth):
         if e[0] == "prefix":
             out.append(["prefix", e[1], list(e[2])])
         else:
-            out.append([list(T.norm(T.rdflib_canon(t))) for t in e])
+            # the rdflib adapter delivers lexical forms exactly as they are on the wire (no re-normalisation)
+            out.append([list(T.norm(t)) for t in e])
     return out
 
 
